@@ -93,10 +93,22 @@ def finite_differences(defs: dict, status: dict):
     defs["quadF3"] = ("E", f.lean())
     defs["quadFDGrad3"] = ("List E", _list(g))
     defs["quadFDHess2"] = ("List E", _list(hs))
+    # the same inherited stencils on a surface that is NOT separable (the Camelback function has an x*y term): a
+    # stencil that evaluates f at a point displaced in another coordinate as well is exposed only there
+    cam = _cls(t1, "Camelback")
+    only_f = ast.ClassDef(name="CamelbackFunctionOnly", bases=[], keywords=[], decorator_list=[],
+                          body=[n for n in cam.body if isinstance(n, ast.FunctionDef) and n.name in ("__init__", "function")])
+    mro_c = [only_f, _cls(t2, "Potential")]
+    cg = S.flatten_result(S.Interp(mro_c, t1).call_method("gradient", [S.Arr([S.E.var(0), S.E.var(1)]), h]))
+    ch = S.flatten_result(S.Interp(mro_c, t1).call_method("hessian", [S.Arr([S.E.var(0), S.E.var(1)]), h]))
+    if len(cg) != 2 or len(ch) != 4:
+        raise Unavailable("finite differences on Camelback: unexpected result shapes")
+    defs["camelFDGrad2"] = ("List E", _list(cg))
+    defs["camelFDHess2"] = ("List E", _list(ch))
     # does the routine leave the caller's array object syntactically untouched?
     defs["fdLeavesCallerArray"] = ("Bool", "true" if untouched else "false")
     status["Surfaces.fd"] = f"FD gradient {[x.size() for x in g]}, FD hessian {[x.size() for x in hs]}, caller array untouched: {untouched}"
-    return {"quadF3": f, "quadFDGrad3": g, "quadFDHess2": hs}
+    return {"quadF3": f, "quadFDGrad3": g, "quadFDHess2": hs, "camelFDGrad2": cg, "camelFDHess2": ch}
 
 
 CMP = {ast.Gt: "gt", ast.Lt: "lt", ast.GtE: "ge", ast.LtE: "le"}
